@@ -77,8 +77,15 @@ def gen_batch(rng, tier, index):
     use_int = rng.random() < 0.85
     iff = rng.choice((0, 1, 1))
     iff0 = iff
+    alias = None
+    if machine != '48K' and rng.random() < 0.25:
+        # 128K: the program sits in bank 5 (0x4000-0x7FFF) or bank 2 (0x8000-0xBFFF) and the same bank is paged at 0xC000,
+        # so a block copy through 0xC000+ can overwrite the copying instruction itself through the alias
+        org = rng.choice((rng.randrange(0x5B00, 0x7F00), rng.randrange(0x8000, 0xBE00)))
+        e = gen_prog.Emitter(rng, org)
+        alias = 5 if org < 0x8000 else 2
     lead_t = None
-    if use_int and rng.random() < 0.15:
+    if use_int and alias is None and rng.random() < 0.15:
         # the program opens with the self-modifying instruction, timed (below) to end inside the INT-active window
         lead_t = _selfmod(rng, e)
         iff = iff0 = 1
@@ -103,6 +110,17 @@ def gen_batch(rng, tier, index):
             e.emit(0xED, rng.choice((0x57, 0x5F)))
         elif k < 0.97:
             _selfmod(rng, e)
+        elif alias is not None:
+            n = rng.randrange(3, 60)
+            up = rng.random() < 0.6
+            e.emit(0xF3, 0x01); e.word(n)                                  # DI; LD BC,n
+            e.emit(0x21); e.word(rng.randrange(0x4000, 0x10000))           # LD HL,src
+            at = (e.pc + 3) & 0xFFFF                                       # address of the LDIR / LDDR itself
+            mirror = (at & 0x3FFF) | 0xC000
+            k2 = rng.randrange(0, n)
+            e.emit(0x11); e.word((mirror - k2) & 0xFFFF if up else (mirror + 1 + k2) & 0xFFFF)     # LD DE: the copy reaches the mirror after k2 bytes
+            e.emit(0xED, 0xB0 if up else 0xB8)
+            iff = 0
         else:
             for _ in range(rng.randrange(1, 4)):
                 e.emit(rng.choice((0xDD, 0xFD)))
@@ -110,6 +128,8 @@ def gen_batch(rng, tier, index):
     stop = e.pc
     isr = rng.choice((0xF000, 0x7000, 0xB000))
     mem = gen_prog.gen_mem(rng, machine)
+    if alias is not None:
+        mem['o7ffd'] = (mem.get('o7ffd', 0) & 0xD8) | alias            # not locked, bank 5 or 2 at 0xC000
     mem['patches'] += [[org, bytes(e.code).hex()], [isr, 'f5f1fbc9'], [0xFEFF, bytes((isr & 0xFF, isr >> 8)).hex()]]
     regs = gen_lock.gen_regs30(rng, machine, org)
     regs[12] = rng.choice((0x5C00, 0x7F00, 0xBF00, 0xFC00))      # never on the IM 2 vector at 0xFEFF
